@@ -241,3 +241,16 @@ def run(ctx):
         r04c(ctx)
     if ctx.want("R02c"):
         taylor_builder(ctx, "R02c", IS + "expand_S_taylor", "-0.5")
+        from . import c02 as _c02
+        _c02.r02c(ctx)
+    # ground-state layer (wavefunctions, norm factors) every expression is built from
+    from . import c02
+    if ctx.want("D1"):
+        deriv.d1(ctx, "D1", "groundstate", 6)
+    if ctx.want("D2"):
+        deriv.d2(ctx, "D2", "groundstate", 6)
+    if ctx.want("D3"):
+        c02.d3_psi(ctx)
+        c02.d3_operator(ctx)
+    if ctx.want("R02a"):
+        c02.r02a(ctx)
